@@ -54,6 +54,18 @@ PROPS = {
             'unit spellings (1G = 1024M, 100% = 100): the parsers utils.megabytes/cpu_units are not yet under '
             'contract (string theory); not decided by this check'],
     },
+    'C05': {
+        'contract_modules': ['scheduler_core', 'scheduler_cell'],
+        'functions': SCHED_CORE + SCHED_CELL + [S + x for x in (
+            'IdentityGroup.__init__', 'Cell.configure_identity_group', 'Cell.remove_identity_group',
+            'Cell.add_app', 'Cell.remove_app')],
+        'replay': 'scheduler.py',
+        'assumptions': SCHED_ASSUME + [
+            'history closure: Cell.schedule assumes the between-cycles identity invariant (ident_between); it is '
+            'proved to be preserved by add_app, remove_app, configure_identity_group, remove_identity_group and by '
+            'the cycle itself; Loader.restore_placement/force_set_identity (master start-up) are not yet under contract',
+        ],
+    },
     'C19': {
         'contract_modules': ['c19_allocation_api'],
         'functions': ['treadmill.api.allocation:_check_limit', 'treadmill.api.allocation:_calc_free',
